@@ -1,7 +1,8 @@
 (* Fs.v — an abstract POSIX-like file system, as far as the std::fs calls of the CLI's
    extract path observe it (cli/src/command/extract.rs, utils/fs.rs):
      Path::exists / is_dir / is_symlink / symlink_metadata, fs::create_dir_all, File::create,
-     os::unix::fs::symlink, fs::hard_link, fs::remove_file, utils::fs::remove, fs::set_permissions.
+     os::unix::fs::symlink, fs::hard_link, fs::remove_file, utils::fs::remove, fs::set_permissions,
+     xattr::set (lsetxattr).
    Names are a finite map from *canonical* absolute paths (lists of components) to directory
    entries; regular files live in an inode table so that hard links alias.  Every operation takes
    a literal path and resolves it the way the kernel does: symbolic links in every directory
@@ -244,6 +245,46 @@ Definition set_mtime (f : fs) (p : path) (t : N) :=
   update_inode f p (fun n => mk_inode (i_content n) (i_mode n) (i_stamp n) (Some t) (i_xattrs n)).
 Definition set_xattrs (f : fs) (p : path) (xs : list (bytes * bytes)) :=
   update_inode f p (fun n => mk_inode (i_content n) (i_mode n) (i_stamp n) (i_mtime n) xs).
+
+(* lsetxattr(2), once per attribute (xattr::set: the last component is NOT followed): an attribute of the same
+   name is replaced, the others stay; the table is kept sorted by name so that equality is equality of tables.
+   user.* attributes cannot be put on a symbolic link (EPERM); attributes of directories are not observed. *)
+Fixpoint bytes_ltb (a b : bytes) : bool :=
+  match a, b with
+  | _, [] => false
+  | [], _ :: _ => true
+  | x :: a', y :: b' => if N.ltb (b2n x) (b2n y) then true
+                        else if N.ltb (b2n y) (b2n x) then false else bytes_ltb a' b'
+  end.
+Fixpoint xattr_put (k v : bytes) (l : list (bytes * bytes)) : list (bytes * bytes) :=
+  match l with
+  | [] => [(k, v)]
+  | (k', v') :: r => if bytes_eqb k k' then (k, v) :: r
+                     else if bytes_ltb k k' then (k, v) :: l else (k', v') :: xattr_put k v r
+  end.
+Definition xattr_merge (old new : list (bytes * bytes)) : list (bytes * bytes) :=
+  fold_left (fun acc kv => xattr_put (fst kv) (snd kv) acc) new old.
+Definition lset_xattrs (f : fs) (p : path) (xs : list (bytes * bytes)) : fs * bool :=
+  match xs with
+  | [] => (f, true)
+  | _ =>
+    match resolve f p false with
+    | Some c =>
+      match nget (names f) c with
+      | Some (DFile i) =>
+        match iget (inodes f) i with
+        | Some n => ({| names := names f;
+                        inodes := iset (inodes f) i (mk_inode (i_content n) (i_mode n) (i_stamp n) (i_mtime n)
+                                                              (xattr_merge (i_xattrs n) xs));
+                        next := next f |}, true)
+        | None => (f, false)
+        end
+      | Some (DDir _) => (f, true)
+      | _ => (f, false)
+      end
+    | None => (f, false)
+    end
+  end.
 
 (* ---- observation ----------------------------------------------------------------------- *)
 (* what a snapshot (lstat + read) sees at a canonical path *)
